@@ -268,7 +268,8 @@ def trapCommandOf (env : Env) (sig : Nat) : Option Nat :=
 
 `yash-builtin/src/cd.rs`: the target is shortened relative to `$PWD` (`cd/shorten.rs`, `Path::strip_prefix`, empty
 result = `.`), then `VirtualSystem::chdir` checks that the path — relative paths are joined to the process's cwd and
-walked *from the root*, `.` components skipped — is an existing directory and stores `cwd.join(path)` unnormalised. -/
+walked *from the root*, `.` components skipped — is an existing directory and stores `cwd.join(path)` with `.`
+components dropped and `..` resolved (`normalizePath`). -/
 
 /-- components of a path, the root directory being the component `/` -/
 def pathComps (p : String) : List String :=
@@ -296,6 +297,21 @@ def joinPath (cwd p : String) : String :=
   else if cwd = "" then p
   else if cwd.endsWith "/" then cwd ++ p
   else cwd ++ "/" ++ p
+
+/-- the loop of `VirtualSystem::chdir` that keeps the working directory canonical: `.` components are dropped,
+    `..` pops the last component (`PathBuf::pop` never removes the root), everything else is pushed -/
+def normalizeComps : List String → List String → List String
+  | acc, [] => acc.reverse
+  | acc, "." :: t => normalizeComps acc t
+  | acc, ".." :: t =>
+    match acc with
+    | [] => normalizeComps [] t
+    | "/" :: r => normalizeComps ("/" :: r) t
+    | _ :: r => normalizeComps r t
+  | acc, c :: t => normalizeComps (c :: acc) t
+
+/-- the path `VirtualSystem::chdir` stores for `cwd.join(path)` -/
+def normalizePath (p : String) : String := renderComps (normalizeComps [] (pathComps p))
 
 /-- the directories of the file system the harness sets up: `/`, `/d1`, `/d1/s`, `/d2` -/
 def dirExists (p : String) : Bool :=
@@ -333,7 +349,7 @@ def applyOp (sh : Shell) (op : Op) : Shell :=
       let e2 := setVar e1 "PWD" fun o => match o with
         | some x => { x with value := d }
         | none => { value := d, exported := true }
-      { sh with env := { e2 with system := { e2.system with cwd := full } } }
+      { sh with env := { e2 with system := { e2.system with cwd := normalizePath full } } }
     else sh
   | .umask m => { sh with env := { env with system := { env.system with umask := m } } }
   | .trap c a => { sh with env := trapSet env c a }
